@@ -9,7 +9,7 @@
    parameter over which the theorems quantify (Workflow.compile's visiting order [ord];
    accept / reject is proved independent of it) or proved irrelevant (validateDAG's
    sweeps, the type inference loop).  Only statements, each closed by [exact]. *)
-From Eino Require Import Base.Util Model.Builder Proofs.Builder Proofs.BuilderReject Proofs.BuilderDag Proofs.BuilderSound Proofs.BuilderReject2 Proofs.BuilderInfer Proofs.BuilderWfOrder Proofs.BuilderReject3 Proofs.BuilderSticky Proofs.BuilderAgree.
+From Eino Require Import Base.Util Model.Builder Proofs.Builder Proofs.BuilderReject Proofs.BuilderDag Proofs.BuilderSound Proofs.BuilderReject2 Proofs.BuilderInfer Proofs.BuilderWfOrder Proofs.BuilderReject3 Proofs.BuilderSticky Proofs.BuilderAgree Model.BuilderNested Proofs.BuilderNested.
 From Coq Require Import Permutation.
 Local Open Scope string_scope.
 Local Open Scope list_scope.
@@ -411,6 +411,29 @@ Example compiled_workflow_declarations_nonvacuous :
   okind (snd (w_compile fixed (fst (wstep fixed w1 (WAddInput "a" START WDepOnly []))) opt_default [] [])) = 1%nat.
 Proof. exact wf_consumed_run. Qed.
 
+(* ------------------------------------------------------------------ builders compiled as nodes of another builder *)
+(* "After a successful Compile the graph can no longer be modified", for a Graph that is compiled as a NODE of
+   another Graph (AddGraphNode; Model/BuilderNested.v: the outer graph, the inner graph values and the calls made
+   on either, the children compiled in the order of their keys): after a successful Compile of the outer graph,
+   every inner graph held by one of its nodes is compiled; whatever is called afterwards on the outer graph or on
+   any inner graph (Add*, further Compiles of either), that inner graph stays exactly what it is, and every Add*
+   on it is answered with ErrGraphCompiled. *)
+Theorem nested_children_frozen : forall s o s1 r k id gi cs c,
+  nstep s (NOuter (GCompile o)) = (s1, OCompiled r) ->
+  In k (map fst (g_nodes (ns_out s))) -> nlookup k (ns_att s) = Some id -> nlookup id (ns_inn s1) = Some gi ->
+  g_err gi = None -> is_add c = true ->
+  let s2 := final nstep s1 cs in
+  child_frozen s2 id gi /\ nstep s2 (NInner id c) = (s2, OErr ECompiled).
+Proof. exact nested_no_modification_after_compile. Qed.
+Print Assumptions nested_children_frozen.
+
+Example nested_children_frozen_nonvacuous :
+  match snd (run_calls nstep (n_init false) one_child_run) with
+  | [OOk; OOk; OOk; OCompiled _; OErr ECompiled; OErr ECompiled; OCompiled _] => True
+  | _ => False
+  end.
+Proof. exact one_child_run_outcomes. Qed.
+
 (* ------------------------------------------------------------------ the repaired defects *)
 (* F-C20a: on the original code a Workflow branch to a node that was never added made
    Compile panic: "never a panic" is false for version v0. *)
@@ -441,3 +464,10 @@ Theorem static_value_after_compile_v0_refuted :
   ~ (forall w o ord sord k n, g_compiled (w_g w) = true -> alist_get k (w_nodes w) = Some n -> wn_static n <> [] ->
        is_err (snd (w_compile v0 w o ord sord))).
 Proof. exact static_after_compile_v0_false. Qed.
+
+(* F-C20g: on the original code graph.compile compiled the child graphs in Go's map order; when one child fails,
+   which of the others have been frozen — the outcome of a later Add* on them — depends on that order *)
+Theorem nested_compile_order_v0_refuted :
+  ~ (forall keys1 keys2 s o id c, Permutation keys1 keys2 ->
+       snd (nstep (fst (n_compile_in keys1 s o)) (NInner id c)) = snd (nstep (fst (n_compile_in keys2 s o)) (NInner id c))).
+Proof. exact child_order_v0_false. Qed.
